@@ -15,10 +15,41 @@ SPEC = {"__add__": "same", "__radd__": "same", "__sub__": "same", "__rsub__": "s
 CMP = ["__eq__", "__gt__", "__ge__", "__lt__", "__le__"]
 
 
+from ..poly import Rat
+
+A_, B_ = Rat.sym("a"), Rat.sym("b")
+
+
 def operand(kind):
     if kind == "num":
-        return V("NUM", extra="v")
-    return V("Q", "S_v", D({"D_v": 1}), kind)
+        return V("NUM", extra="v", num=B_)
+    return V("Q", "S_v", D({"D_v": 1}), kind, num=B_)
+
+
+def expected_num(op):
+    """magnitude of the result as a function of a = self and b = the other operand (one unit system)"""
+    return {"__add__": A_ + B_, "__radd__": B_ + A_, "_sum": A_ + B_, "__sub__": A_ - B_, "__rsub__": B_ - A_,
+            "__mul__": A_ * B_, "__rmul__": B_ * A_, "_product": A_ * B_, "__truediv__": A_ / B_,
+            "__rtruediv__": B_ / A_, "__mod__": Rat.sym("mod(%r,%r)" % (A_, B_)), "_modulo": Rat.sym("mod(%r,%r)" % (A_, B_)),
+            "__rmod__": Rat.sym("mod(%r,%r)" % (B_, A_)), "_rmodulo": Rat.sym("mod(%r,%r)" % (B_, A_)),
+            "__neg__": -A_, "__pos__": A_, "__abs__": Rat.sym("abs(%r)" % (A_,)), "invert": Rat.const(1) / A_,
+            "__pow__": Rat.sym("pow(%r,%r)" % (A_, B_))}.get(op)
+
+
+def norm_cmp(t):
+    """(relation, x, y) with relation in Lt / LtE / Eq, or None"""
+    op, l, r = t
+    if op == "Gt":
+        return ("Lt", r, l)
+    if op == "GtE":
+        return ("LtE", r, l)
+    if op in ("Lt", "LtE", "Eq"):
+        return (op, l, r)
+    return None
+
+
+EXPECT_CMP = {"__lt__": ("Lt", A_, B_), "__le__": ("LtE", A_, B_), "__gt__": ("Lt", B_, A_), "__ge__": ("LtE", B_, A_),
+              "__eq__": ("Eq", A_, B_)}
 
 
 def rule_tag(ctx, py):
@@ -35,7 +66,7 @@ def rule_tag(ctx, py):
             kinds = ["UnitValue", "UnitArray", "num"] if binary else [None]
             for k in kinds:
                 cx = Cx()
-                selfv = V("Q", "S_self", D({"D_self": 1}), cls)
+                selfv = V("Q", "S_self", D({"D_self": 1}), cls, num=A_)
                 env = {"self": selfv}
                 if k:
                     env[m.args.args[1].arg] = operand(k)
@@ -65,6 +96,19 @@ def rule_tag(ctx, py):
                         if not oksys:
                             probs.append((m.lineno, "result is labelled with system %s although its number was "
                                           "computed in S_self" % rv.sys))
+                        en = expected_num(op)
+                        if en is not None and rv.num is not None and not rv.num.equals(en):
+                            probs.append((m.lineno, "the magnitude is %r (a = self, b = the other operand), arithmetic on "
+                                          "the SI values gives %r: wrong operand order or sign" % (rv.num, en)))
+                    if rv is not None and rv.kind == "BOOL" and isinstance(rv.extra, tuple) and op in EXPECT_CMP:
+                        got = norm_cmp(rv.extra)
+                        want = EXPECT_CMP[op]
+                        okc = got is not None and got[0] == want[0] and (
+                            (got[1].equals(want[1]) and got[2].equals(want[2])) or
+                            (want[0] == "Eq" and got[1].equals(want[2]) and got[2].equals(want[1])))
+                        if not okc:
+                            probs.append((m.lineno, "the comparison evaluates %s(%r, %r), the operator means %s(%r, %r)"
+                                          % ((got or rv.extra)[0], (got or rv.extra)[1], (got or rv.extra)[2]) + want))
                 what = "%s.%s(%s)" % (cls, op, k or "")
                 if probs:
                     line, msg = probs[0]
